@@ -105,3 +105,11 @@ Proof. vm_compute. split; reflexivity. Qed.
 Example ex_values : (Qh_of (stage_model act_window ex_hot ex_cold []), Qc_of (stage_model act_window ex_hot ex_cold []),
                      Qh_star ex_hot ex_cold, Qc_star ex_hot ex_cold) = (33 # 2, 10, 33 # 2, 10).
 Proof. vm_compute. reflexivity. Qed.
+
+(* D44: without the Robust hypothesis the statement is false of the faithful model: a stream narrower than the window *)
+Definition narrow_cold : list view := [mkV 100 (100 + (4 # 1000000)) 2500000].
+Definition narrow_hot : list view := [mkV 150 200 1].
+Lemma window_refuted :
+  Qh_of (stage_model act_window narrow_hot narrow_cold []) == 0 /\ Qh_star narrow_hot narrow_cold == 10
+  /\ gaps_b act_window (grid_of (endpoints (narrow_hot ++ narrow_cold ++ []))) = false.
+Proof. vm_compute. repeat split; reflexivity. Qed.
